@@ -34,7 +34,7 @@ fn rand_num(rng: &mut Rng, plain: bool) -> V {
                 let x = m * e / 1000.0;
                 V::S(if rng.chance(1, 3) { -x } else { x })
             }
-            5 => V::S(*rng.pick(&[0.5f32, 0.1, 1.5, 3.14159, 100.0, 0.001, 16777216.0, 1e7, 9999999.0, 1e-4])),
+            5 => V::S(*rng.pick(&[0.5f32, 0.1, 1.5, 3.14159, 100.0, 0.001, 16777216.0, 1e7, 9999999.0, 1e-4, -0.0, 0.0])),
             _ => {
                 let m = rng.range(1, 999_999_999_999) as f64;
                 let e = *rng.pick(&[1e-9f64, 1e-6, 1e-3, 1.0, 1.0, 1e3, 1e20, 1e-20, 1e100]);
@@ -82,6 +82,30 @@ impl C11 {
             V::D(x) => *x < 0.0,
             _ => false,
         };
+        // the token is one sign column (blank or minus), the digits, one blank
+        let middle: String = body.chars().skip(1).collect();
+        if body.len() >= 3 && (middle.starts_with('-') || middle.starts_with('+') || middle.starts_with(' ') || middle.trim_end().contains(' ')) {
+            ctx.violation(
+                "sign-column",
+                "print:number-token-shape",
+                &format!("{} printed {:?}: a number is one sign column (blank or minus), the digits and one blank", stmt, body),
+                &stmt,
+            );
+            return;
+        }
+        let is_neg_zero = match &v {
+            V::S(x) => *x == 0.0 && x.is_sign_negative(),
+            V::D(x) => *x == 0.0 && x.is_sign_negative(),
+            _ => false,
+        };
+        if is_neg_zero {
+            // which sign column a negative zero gets is not documented; the shape of the token is
+            ctx.count("negative_zero_printed");
+            if body != "-0 " && body != " 0 " {
+                ctx.violation("sign-column", "print:negative-zero", &format!("{} printed {:?}", stmt, body), &stmt);
+            }
+            return;
+        }
         let lead_ok = if neg { body.starts_with('-') } else { body.starts_with(' ') };
         if !lead_ok || !body.ends_with(' ') || body.len() < 3 {
             ctx.violation(
